@@ -49,7 +49,13 @@ class SymbolCodePrinter(StrPrinter):  # type: ignore[misc]
                 return f"{n} / sqrt({d})"
             if expr.exp is -S.One:
                 # Similarly to the S.Half case, don't test with "==" here.
-                return f"{self._print(S.One)} / {self.parenthesize(expr.base, prec, strict=True)}"
+                base = expr.base
+                base_str = self.parenthesize(base, prec, strict=True)
+                # a reciprocal in the denominator is itself printed as a quotient: 1 / (1 / x)
+                if (base.is_Pow and base.is_commutative and
+                    (base.exp is S.NegativeOne or -base.exp is S.Half)):
+                    base_str = f"({self._print(base)})"
+                return f"{self._print(S.One)} / {base_str}"
 
         e = self.parenthesize(expr.exp, prec, strict=False)
         if self.printmethod == "_sympyrepr" and expr.exp.is_Rational and expr.exp.q != 1:
